@@ -1089,6 +1089,8 @@ def _hasattr(ex, st, args, kwargs, node):
         if name in o.attrs:
             return True
         ci, fn = source.find_method(o.cls, name)
+        if fn is None and source.class_stores_attr(o.cls, name):
+            raise Unsupported('hasattr(self, %r): state kept between calls that the contract does not describe' % name)
         return fn is not None
     raise Unsupported('hasattr(%r,%r)' % (v, name))
 
